@@ -7,6 +7,7 @@
 package c02
 
 import (
+	stdctx "context"
 	stderrors "errors"
 	"fmt"
 	"net/http"
@@ -82,6 +83,7 @@ type scn struct {
 	errKind    map[string]int      // 0:401 1:403 2:418 3:plain
 	authz      int                 // 0 none 1 accept 2 deny plain 3 deny 402
 	broken     int                 // 0 ok 1 content-type 2 accept 3 query 4 body
+	cancelAt   int                 // >0: the request context is cancelled while the k-th authenticator consultation runs
 	flow       int                 // 0 full handler 1 accessor sequence
 }
 
@@ -138,6 +140,9 @@ func generate(t *kernel.Tape) *scn {
 	s.authz = t.Weighted("authz", 3, 3, 2, 1)
 	s.broken = t.Weighted("broken", 5, 1, 1, 1, 1)
 	s.flow = t.Choose(3, "flow")
+	if t.Bool(6, "context-cancelled-during-authentication") {
+		s.cancelAt = 1 + t.Choose(3, "cancel-at-consultation")
+	}
 	return s
 }
 
@@ -208,6 +213,8 @@ func (prop) Run(t *testing.T, tape *kernel.Tape, sc kernel.Scenario) *kernel.Res
 		return res
 	}
 	world := simapi.NewWorld(1)
+	consultations = 0
+	cancelRequest = nil
 	u := simapi.NewUntyped(doc)
 	u.RegisterConsumer("application/json", &simapi.Consumer{W: world, Tag: "json", Inner: runtime.JSONConsumer()})
 	u.RegisterProducer("application/json", &simapi.Producer{W: world, Tag: "json", Inner: runtime.JSONProducer()})
@@ -216,7 +223,12 @@ func (prop) Run(t *testing.T, tape *kernel.Tape, sc kernel.Scenario) *kernel.Res
 			continue
 		}
 		n := n
-		u.RegisterAuth(n, &simapi.Auth{W: world, Scheme: n, Outcome: func(_ int, _ *http.Request, required []string) simapi.AuthOutcome {
+		u.RegisterAuth(n, &simapi.Auth{W: world, Scheme: n, OnCall: func() {
+			consultations++
+			if s.cancelAt > 0 && consultations == s.cancelAt && cancelRequest != nil {
+				cancelRequest() // the client went away while credentials were being checked
+			}
+		}, Outcome: func(_ int, _ *http.Request, required []string) simapi.AuthOutcome {
 			switch s.outcome[n] {
 			case oAccept:
 				// the presented credential is good for s.granted[n] only
@@ -358,7 +370,16 @@ func markFaults(env *kernel.Env, s *scn) {
 	if s.broken != 0 {
 		env.Fault("broken-request")
 	}
+	if s.cancelAt > 0 {
+		env.Fault("context-cancelled-during-authentication")
+	}
 }
+
+// per-run hooks shared by the scripted authenticators (runs are sequential within a worker)
+var (
+	consultations int
+	cancelRequest func()
+)
 
 type observed struct {
 	status    int
@@ -413,6 +434,14 @@ func (b nopBinder) BindRequest(*http.Request, *middleware.MatchedRoute) error {
 func serve(env *kernel.Env, s *scn, ctx *middleware.Context, handler http.Handler, world *simapi.World) observed {
 	var o observed
 	r, st := buildRequest(env, s)
+	consultations = 0
+	cancelRequest = nil
+	if s.cancelAt > 0 {
+		cctx, cancel := stdctx.WithCancel(r.Context())
+		r = r.WithContext(cctx)
+		cancelRequest = cancel
+		defer cancel()
+	}
 	rec := httptest.NewRecorder()
 	if s.flow == 0 || s.flow == 2 {
 		if pm := kernel.Catch(func() { handler.ServeHTTP(rec, r) }); pm != "" {
